@@ -1495,6 +1495,31 @@ def check_C18(chk):
         chk.floor(r, n)
 
 
+def _is_ok_payload_of(f, local, call_dest):
+    """local is the Ok payload of the Result in call_dest: `match r { Ok(n) => .. }` or `let n = r?;`"""
+    l = local
+    for _ in range(8):
+        d = f.single_def(l)
+        if not (d and d[0] == "assign" and d[3]["k"] == "use"):
+            return False
+        p = op_place(d[3]["op"])
+        if p is None:
+            return False
+        if not p[1]:
+            l = p[0]
+            continue
+        if len(p[1]) == 2 and p[1][0][0] == "downcast" and p[1][0][1] in ("Ok", "Continue") and p[1][1][0] == "field" and p[1][1][1] == 0:
+            x = f.copy_root(p[0])
+            if x == call_dest:
+                return True
+            dx = f.single_def(x)
+            if dx and dx[0] == "call" and callee_is(dx[2]["callee"], "core::ops::try_trait::Try::branch") and dx[2]["args"]:
+                yl = op_local(dx[2]["args"][0])
+                return yl is not None and f.copy_root(yl) == call_dest
+        return False
+    return False
+
+
 def reader_outcomes(chk, rule):
     """a failure of the record reader is an error at every offset: in the two genotype readers `ReadStatus::Done` is constructed only for
     the zero-length successful read, `ReadStatus::Read` only under success of every fallible step, and nothing but `ReadStatus::Error`
@@ -1516,6 +1541,12 @@ def reader_outcomes(chk, rule):
                 ok_edges.append((sb, an.variant_target(f, sb, "Ok")))
                 err_edges.append((sb, an.variant_target(f, sb, "Err")))
         first = [(sb, t_) for sb, t_ in ok_edges if any(x[0] == sb for x in an.switches_on_call_result(f, rb))]
+        tb_ = an.try_branch_of(f, rb)
+        if tb_ is not None:
+            # `read_record(..)?`: the continue edge is the success edge, the break edge the failure edge
+            first.append((tb_[1], tb_[2]))
+            err_edges.append((tb_[1], tb_[3]))
+        rd_ = an.call_dest_local(f.term(rb))
         bad = []
         n_done = 0
         for b, i, p_, rv, x_ in f.assigns():
@@ -1537,8 +1568,12 @@ def reader_outcomes(chk, rule):
                         s_ = an.switch_subject(f, sb)
                         d_ = f.single_def(s_["root"]) if s_["root"] is not None else None
                         if d_ and d_[0] == "assign" and d_[3]["k"] == "binop" and d_[3]["op"] in ("Eq", "Ne") and 0 in (const_val(d_[3]["l"]), const_val(d_[3]["r"])):
+                            # (the value compared with 0 is the byte count the record read returned)
+                            other_ = d_[3]["r"] if const_val(d_[3]["l"]) == 0 else d_[3]["l"]
+                            ol_ = op_local(other_)
+                            from_read = ol_ is not None and _is_ok_payload_of(f, ol_, rd_)
                             t0 = st["otherwise"] if d_[3]["op"] == "Eq" else an.edge_target(st, 0)
-                            zero = zero or an.dominated_by_edge(f, sb, t0, b)
+                            zero = zero or (from_read and an.dominated_by_edge(f, sb, t0, b))
                         continue
                     zero = zero or an.dominated_by_edge(f, sb, an.edge_target(st, 0), b)
                 if not (under_first_ok and zero):
@@ -1571,8 +1606,27 @@ def reader_outcomes(chk, rule):
         g = chk.fn("<sfs_core::input::genotype::reader::%s::Reader<R> as sfs_core::input::genotype::reader::Reader>::read_genotypes" % kind)
         if g is not None:
             names = [callee_name(t["callee"]).split("::")[-1] for b, t in g.calls()]
-            chk.ob(rule, "%s::Reader::read_genotypes=inherent.map(..)" % kind, names == ["read_genotypes", "map"] and not list(g.switches()), g.loc(),
-                   "the trait method forwards the inherent reader's status and converts only the Read payload (calls %s)" % names)
+            ok_ = names == ["read_genotypes", "map"] and not list(g.switches())
+            why_ = "calls %s" % names
+            if chk.prog.fn("sfs_core::input::genotype::reader::%s::Reader::<R>::read_genotypes" % kind) is g:
+                # the inherent reader was merged into the trait method: its statuses are this function's, judged by the outcome rule above
+                ok_ = True
+                why_ = "the inherent read_genotypes was merged into the trait method; Done / Read / Error are judged on the merged function"
+            elif not ok_:
+                # the status matched by hand: Done => Done, Error(e) => Error(e), Read(x) => Read(convert(x))
+                rg_ = [(b, t) for b, t in g.calls() if names and callee_name(t["callee"]).split("::")[-1] in ("read_genotypes", "read_vcf_genotypes") or (t["callee"].get("path") or "").endswith("::Reader::<R>::read_genotypes")]
+                RS_ = "sfs_core::input::ReadStatus"
+                if len(rg_) == 1:
+                    for sb, s_ in an.switches_on_call_result(g, rg_[0][0]):
+                        if s_["kind"] == "discr" and s_.get("adt") == RS_:
+                            tg = {v: an.variant_target(g, sb, v) for v in ("Done", "Error", "Read")}
+                            built = [(b, rv["variant"]) for b, i, p_, rv, x_ in g.assigns() if rv["k"] == "aggregate" and rv.get("adt") == RS_]
+                            same = all(any(v2 == v and an.dominated_by_edge(g, sb, tg[v], b) for b, v2 in built) for v in ("Done", "Error", "Read")) and \
+                                all(any(an.dominated_by_edge(g, sb, tg[v], b) for v in (v2,)) for b, v2 in built)
+                            ok_ = len(set(tg.values())) == 3 and same
+                            why_ = "status matched by hand: each status is rebuilt under its own arm only=%s" % same
+            chk.ob(rule, "%s::Reader::read_genotypes=inherent.map(..)" % kind, ok_, g.loc(),
+                   "the trait method forwards the inherent reader's status and converts only the Read payload (%s)" % why_)
 
 
 def c18a(chk):
@@ -1690,6 +1744,56 @@ def c18b(chk):
 
 def c18c(chk):
     prog = chk.prog
+
+    def flow(f, seeds, skip_bb=None):
+        """(content-dependent sinks of the byte slice held in `seeds` within f, [(workspace callee, its parameter local)] it is handed to)"""
+        derived = set(seeds)
+        changed = True
+        while changed:
+            changed = False
+            for b2, i, p, rv, s_ in f.assigns():
+                if p[1]:
+                    continue
+                srcs = []
+                if rv["k"] in ("use", "cast"):
+                    q = op_place(rv["op"])
+                    if q:
+                        srcs.append(q[0])
+                if rv["k"] in ("ref", "rawptr"):
+                    srcs.append(P(rv["place"])[0])
+                if any(x in derived for x in srcs) and p[0] not in derived:
+                    derived.add(p[0])
+                    changed = True
+            for b2, t2 in f.calls():
+                if callee_is(t2["callee"], N.TRY_BRANCH) and op_local(t2["args"][0]) in derived:
+                    dl = an.call_dest_local(t2)
+                    if dl is not None and dl not in derived:
+                        derived.add(dl)
+                        changed = True
+        sinks = set()
+        passed = []
+        for b2, t2 in f.calls():
+            if b2 == skip_bb:
+                continue
+            hit = [i_ for i_, a in enumerate(t2["args"]) if op_place(a) and op_place(a)[0] in derived]
+            if hit:
+                nm = callee_name(t2["callee"])
+                if callee_is(t2["callee"], N.TRY_BRANCH, N.FROM_RESIDUAL):
+                    continue
+                tg = [g for g in prog.call_targets(f, t2) if g.kind != "Closure"] if t2["callee"].get("local") else []
+                if len(tg) == 1 and not tg[0].derived:
+                    # handed to a workspace function: what happens to the bytes is decided there
+                    for i_ in hit:
+                        passed.append((tg[0], i_ + 1))
+                    continue
+                sinks.add(nm)
+        for b2, i, p, rv, s_ in f.assigns():
+            if rv["k"] == "binop" and any(op_place(o) and op_place(o)[0] in derived for o in (rv["l"], rv["r"])):
+                sinks.add("compare:" + rv["op"])
+            if rv["k"] == "unop" and rv["op"] == "PtrMetadata" and op_place(rv["operand"]) and op_place(rv["operand"])[0] in derived:
+                sinks.add("len")
+        return sinks, passed
+
     for f in prog.fn_list:
         if f.derived:
             continue
@@ -1697,52 +1801,35 @@ def c18c(chk):
             if not callee_is(t["callee"], "std::io::BufRead::fill_buf"):
                 continue
             chk.saw_calls()
-            # the slice: payload of the Ok / Continue
-            d = an.call_dest_local(t)
-            # forward flow: find every local derived from d by copies / payload projections / reborrows
-            derived = {d}
-            changed = True
-            while changed:
-                changed = False
-                for b2, i, p, rv, s in f.assigns():
-                    if p[1]:
-                        continue
-                    srcs = []
-                    if rv["k"] in ("use", "cast"):
-                        q = op_place(rv["op"])
-                        if q:
-                            srcs.append(q[0])
-                    if rv["k"] in ("ref", "rawptr"):
-                        srcs.append(P(rv["place"])[0])
-                    if any(x in derived for x in srcs) and p[0] not in derived:
-                        derived.add(p[0])
-                        changed = True
-                for b2, t2 in f.calls():
-                    if callee_is(t2["callee"], N.TRY_BRANCH) and op_local(t2["args"][0]) in derived:
-                        dl = an.call_dest_local(t2)
-                        if dl is not None and dl not in derived:
-                            derived.add(dl)
-                            changed = True
-            sinks = set()
-            for b2, t2 in f.calls():
-                if b2 == b:
+            # the slice: payload of the Ok / Continue; followed into the workspace functions it is handed to (the obligation is keyed by
+            # the function that examines the bytes, wherever the fill_buf() call itself stands)
+            work = [(f, {an.call_dest_local(t)}, b)]
+            seen = set()
+            per_fn = {}
+            while work:
+                g, seeds, skip = work.pop()
+                key_ = (g.path, tuple(sorted(x for x in seeds if x is not None)))
+                if key_ in seen or len(seen) > 12:
                     continue
-                if any(op_place(a) and op_place(a)[0] in derived for a in t2["args"]):
-                    nm = callee_name(t2["callee"])
-                    if callee_is(t2["callee"], N.TRY_BRANCH, N.FROM_RESIDUAL):
-                        continue
-                    sinks.add(nm)
-            for b2, i, p, rv, s in f.assigns():
-                if rv["k"] == "binop" and any(op_place(o) and op_place(o)[0] in derived for o in (rv["l"], rv["r"])):
-                    sinks.add("compare:" + rv["op"])
-                if rv["k"] == "unop" and rv["op"] == "PtrMetadata" and op_place(rv["operand"]) and op_place(rv["operand"])[0] in derived:
-                    sinks.add("len")
-            content = sorted(x for x in sinks if x not in ("core::slice::<impl [T]>::is_empty",))
-            # the key names the sinks, so that a further content-dependent decision at an already recorded site is a new violation
-            kx = ("[sinks=%s]" % ",".join(x.split("::")[-1] for x in content)) if content else ""
-            chk.ob("C18.c", "fill_buf@%s/only-emptiness%s" % (f.path, kx), not content, f.loc(b),
-                   "the bytes returned by fill_buf (one chunk of unspecified length) may only be tested with is_empty(); here they also flow into %s, "
-                   "so the decision depends on how the stream was chunked" % content)
+                seen.add(key_)
+                sinks, passed = flow(g, seeds, skip)
+                per_fn.setdefault(g.path, set()).update(sinks)
+                chk.fns_analysed.add(g.path)
+                for h, pl in passed:
+                    work.append((h, {pl}, None))
+            if not any(v for v in per_fn.values()):
+                per_fn = {f.path: set()}
+            for gp, sinks in sorted(per_fn.items()):
+                if gp != f.path and not sinks:
+                    continue
+                content = sorted(x for x in sinks if x not in ("core::slice::<impl [T]>::is_empty",))
+                if gp == f.path and not content and any(v - {"core::slice::<impl [T]>::is_empty"} for k_, v in per_fn.items() if k_ != gp):
+                    continue
+                # the key names the sinks, so that a further content-dependent decision at an already recorded site is a new violation
+                kx = ("[sinks=%s]" % ",".join(x.split("::")[-1] for x in content)) if content else ""
+                chk.ob("C18.c", "fill_buf@%s/only-emptiness%s" % (gp, kx), not content, f.loc(b),
+                       "the bytes returned by fill_buf (one chunk of unspecified length) may only be tested with is_empty(); here they also flow into %s%s, "
+                       "so the decision depends on how the stream was chunked" % (content, "" if gp == f.path else " in %s" % gp))
 
 
 def c18e(chk):
